@@ -13,7 +13,9 @@ template <typename T>
 struct reference_wrapper;
 
 template <typename T>
-struct unwrap_reference;
+struct unwrap_reference {
+    using type = T;
+};
 
 template <typename T>
 struct unwrap_reference<reference_wrapper<T>> {
